@@ -69,7 +69,13 @@ func VerifC16Update() {
 	// actual text: arbitrary short bytes, or a text containing a marker line
 	var actual string
 	marker := false
-	switch rt.IntRange(0, 1) {
+	switch rt.IntRange(0, 2) {
+	case 2:
+		// a text much longer than any golden entry (and than the marker line that follows it)
+		c := rt.Byte()
+		rt.Assume(c != '\n' && c != '\r' && c != '-' && c < 0x80)
+		actual = strings.Repeat("L", 40) + string([]byte{c}) + "\n"
+		rt.Reach("actual-longer-than-the-entry-and-the-next-marker")
 	case 0:
 		b := rt.Bytes(rt.IntRange(0, rt.Param("A", 2)))
 		for i := range b {
